@@ -81,6 +81,8 @@ deriving DecidableEq, Repr
     `pollSleep d i wake`: inside the `usleep` of that iteration, which returns once the clock has reached `wake` -/
 inductive Pc | idle | post | wait | tryWait | twait (d : Deadline)
   | pollTry (d : Deadline) (i : Nat) | pollSleep (d : Deadline) (i : Nat) (wake : Nat)
+  /-- `wait(timeout)` in the variant that first tries `sem_trywait` and reads the clock only when that fails -/
+  | twTry (ms : Nat)
 deriving DecidableEq, Repr
 
 /-- a timed wait that returned false: its deadline record and the time of the return (ghost) -/
@@ -103,9 +105,12 @@ structure St where
   flog : List FalseRet
   /-- how often `sem_timedwait` may still report ENOSYS (an arbitrary parameter; 0 on a system that implements it) -/
   enosys : Nat
+  /-- variant of `wait(timeout)` (constant along a run; the contract does not fix it, every theorem holds for both): does it
+      begin with a `sem_trywait` fast path and compute the deadline only when that fails? -/
+  tryFirst : Bool
 
-def init (count now eintr : Nat) (enosys : Nat := 0) : St :=
-  ⟨count, fun _ => .idle, fun _ => none, now, eintr, count, 0, 0, [], enosys⟩
+def init (count now eintr : Nat) (enosys : Nat := 0) (tryFirst : Bool := false) : St :=
+  ⟨count, fun _ => .idle, fun _ => none, now, eintr, count, 0, 0, [], enosys, tryFirst⟩
 
 def done (s : St) (t : Tid) (v : Val) : St := { s with pc := upd s.pc t .idle, ret := upd s.ret t (some v) }
 def goto (s : St) (t : Tid) (p : Pc) : St := { s with pc := upd s.pc t p }
@@ -117,12 +122,17 @@ def step (s : St) (t : Tid) : Act Op → Option St
       some { s with ret := upd s.ret t none,
                     pc := upd s.pc t (match op with
                       | .signal => .post | .wait => .wait | .tryWait => .tryWait
-                      -- clock_gettime(CLOCK_REALTIME, &ts); ts += timeout
-                      | .twait ms => .twait (mkDeadline s.now ms)) }
+                      -- clock_gettime(CLOCK_REALTIME, &ts); ts += timeout   — or, in the try-first variant, sem_trywait before that
+                      | .twait ms => if s.tryFirst then .twTry ms else .twait (mkDeadline s.now ms)) }
     else none
   | .run alt =>
     match s.pc t with
     | .idle => none
+    | .twTry ms =>        -- if(sem_trywait(data) != -1) return true; clock_gettime; ts += timeout
+      if alt = 0 then
+        if s.count > 0 then some (done { s with count := s.count - 1, succ := s.succ + 1 } t (.bool true))
+        else some (goto s t (.twait (mkDeadline s.now ms)))
+      else none
     | .post =>            -- VERIFY(sem_post(data) != -1)
       if alt = 0 then some (done { s with count := s.count + 1, posts := s.posts + 1 } t .unit) else none
     | .wait =>            -- return sem_wait(data) != -1
@@ -164,6 +174,7 @@ def step (s : St) (t : Tid) : Act Op → Option St
 
 inductive Reach (count now eintr : Nat) : St → Prop
   | init (enosys : Nat) : Reach count now eintr (init count now eintr enosys)
+  | initP (enosys : Nat) (tryFirst : Bool) : Reach count now eintr (init count now eintr enosys tryFirst)
   | step {s s' t a} : Reach count now eintr s → step s t a = some s' → Reach count now eintr s'
 
 end Sem
@@ -201,12 +212,23 @@ structure St where
   spur : Nat
   /-- ghost: newest event first -/
   hist : List Ev
+  /-- variants the contract does not fix (constant along a run; every theorem holds for all four combinations; the driver
+      takes them from the current source, Generated/SyncShape): `set()` on a flag that is already set leaves out the store and
+      the broadcast (nobody can be blocked then) -/
+  setSkips : Bool
+  /-- `wait(timeout)` reads the clock and computes its deadline only after it has locked and found the flag clear -/
+  lazyDl : Bool
 
-def init (set : Bool) (now spur : Nat) : St :=
-  ⟨none, set, fun _ => .idle, fun _ => none, now, spur, []⟩
+def init (set : Bool) (now spur : Nat) (setSkips : Bool := false) (lazyDl : Bool := false) : St :=
+  ⟨none, set, fun _ => .idle, fun _ => none, now, spur, [], setSkips, lazyDl⟩
 
 def goto (s : St) (t : Tid) (p : Pc) : St := { s with pc := upd s.pc t p }
 def done (s : St) (t : Tid) (v : Val) : St := { s with pc := upd s.pc t .idle, ret := upd s.ret t (some v) }
+
+/-- the deadline `wait(timeout)` goes on with after its lock: in the lazy variant it is computed now -/
+def relazy (lazy : Bool) (now : Nat) : Option Deadline → Option Deadline
+  | none => none
+  | some d => if lazy then some (mkDeadline now d.ms) else some d
 
 /-- the loop head of wait()/wait(timeout), executed while holding the mutex:
     `if(signaled) { unlock; return true; }  pthread_cond_[timed]wait(...)` -/
@@ -229,7 +251,9 @@ def step (s : St) (t : Tid) : Act Op → Option St
     -- while the mutex is held, so that the unlock is set()'s last access to the object)
     | .setLock =>
       if alt = 0 ∧ s.m = none then
-        some (goto { s with m := some t, flag := true, hist := .write true :: s.hist } t .setBcast) else none
+        if s.setSkips = true ∧ s.flag = true then some (goto { s with m := some t } t .setUnlock)     -- if(!signaled) { … } skipped
+        else some (goto { s with m := some t, flag := true, hist := .write true :: s.hist } t .setBcast)
+      else none
     | .setBcast =>
       if alt = 0 then
         some (goto { s with pc := fun u => match s.pc u with | .wBlocked dl => .wRelock dl false | p => p } t .setUnlock)
@@ -243,8 +267,11 @@ def step (s : St) (t : Tid) : Act Op → Option St
     | .resetUnlock =>
       if alt = 0 ∧ s.m = some t then some (done { s with m := none } t .unit) else none
     -- wait() / wait(timeout)
-    | .wLock dl =>
-      if alt = 0 ∧ s.m = none then some (loopHead { s with m := some t } t dl) else none
+    | .wLock dl =>          -- (lazy variant: the deadline is computed now, from the clock as it is after the lock)
+      if alt = 0 ∧ s.m = none then
+        (if s.flag then some (goto { s with m := some t } t (.wUnlock true dl))
+         else some (goto { s with m := some t } t (.wEnter (relazy s.lazyDl s.now dl))))
+      else none
     | .wUnlock r dl =>
       if alt = 0 ∧ s.m = some t then
         some (done { s with m := none, hist := .waitRet t r dl s.now :: s.hist } t (.bool r))
@@ -272,6 +299,7 @@ def step (s : St) (t : Tid) : Act Op → Option St
 
 inductive Reach (set : Bool) (now spur : Nat) : St → Prop
   | init : Reach set now spur (init set now spur)
+  | initP (setSkips lazyDl : Bool) : Reach set now spur (init set now spur setSkips lazyDl)
   | step {s s' t a} : Reach set now spur s → step s t a = some s' → Reach set now spur s'
 
 end Signal
